@@ -48,6 +48,7 @@ type Recorder struct {
 	Count    [nFuncs]int
 	Faults   [nFuncs]uint64 // bit i set: i-th call of that function fails
 	Panics   [nFuncs]uint64 // bit i set: i-th call of that function panics (the caller recovers)
+	LibErr   bool           // failing calls return an error value of the library's own runtime error types
 	Nested   int            // nested library calls made
 	Panicked int            // planned panics raised
 	Bad      string         // first anomaly seen inside a callback
@@ -58,6 +59,7 @@ func (r *Recorder) reset(f [nFuncs]uint64) {
 	r.Count = [nFuncs]int{}
 	r.Faults = f
 	r.Panics = [nFuncs]uint64{}
+	r.LibErr = false
 	r.Nested = 0
 	r.Panicked = 0
 	r.Bad = ""
@@ -98,6 +100,25 @@ func (p plannedPanic) String() string { return "planned panic of " + p.fn }
 type errPlanned struct{ fn string }
 
 func (e errPlanned) Error() string { return "planned failure of " + e.fn }
+
+// libraryErrors are error values produced by the library itself (a user function that uses
+// jsonpath internally may well return those).
+var libraryErrors []error
+
+func initLibraryErrors() {
+	_, e1 := jsonpath.Retrieve(`$.nope`, map[string]interface{}{})
+	_, e2 := jsonpath.Retrieve(`$.a.b`, map[string]interface{}{"a": 1.0})
+	libraryErrors = []error{e1, e2}
+}
+
+// plannedError is what a failing user function returns: mostly a harness error, for every
+// third failing call an error value of the library's own runtime error types.
+func plannedError(r *Recorder, f, i int) error {
+	if len(libraryErrors) > 0 && (r.LibErr || i%3 == 2) {
+		return libraryErrors[(f+i)%len(libraryErrors)]
+	}
+	return errPlanned{funcNames[f]}
+}
 
 // nested library use from inside callbacks
 var (
@@ -167,7 +188,7 @@ func mkFilter(f, variant int) func(interface{}) (interface{}, error) {
 			reenter(r)
 		}
 		if fail {
-			return nil, errPlanned{funcNames[f]}
+			return nil, plannedError(r, f, r.Count[f]-1)
 		}
 		if f == fTag {
 			return tagOf(v, variant), nil
@@ -192,7 +213,7 @@ func mkAggregate(f, variant int) func([]interface{}) (interface{}, error) {
 			reenter(r)
 		}
 		if fail {
-			return nil, errPlanned{funcNames[f]}
+			return nil, plannedError(r, f, r.Count[f]-1)
 		}
 		switch f {
 		case fCnt, fYA:
